@@ -250,17 +250,17 @@ class PositionalGen(object):
         return e
 
     def docs(self):
-        """2-3 documents with an array of sub-documents under a or b (sometimes holding a
+        """two documents with an array of sub-documents under a or b (sometimes holding a
         scalar), an array of scalars under d and a plain field c"""
         r = self.r
         f = r.choice(self.ARR)
         out = []
-        for _ in range(r.choice([2, 3])):
-            arr = [self.element() for _ in range(r.choice([0, 1, 2, 3, 3]))]
+        for _ in range(2):
+            arr = [self.element() for _ in range(r.choice([0, 1, 2, 2, 3]))]
             if r.random() < 0.1:
                 arr.insert(r.randrange(len(arr) + 1), r.choice([1, 'x', None, [1, 2]]))
             d = {f: arr, 'c': r.choice([1, 2]),
-                 'd': [r.choice([1, 2, 3, 5]) for _ in range(r.choice([0, 2, 3]))]}
+                 'd': [r.choice([1, 2, 3, 5]) for _ in range(r.choice([0, 2, 2, 3]))]}
             if r.random() < 0.15:
                 d['ab'] = r.choice([1, None, [{'k': 1}]])
             out.append(d)
@@ -349,16 +349,16 @@ class PositionalGen(object):
             lambda: {'$rename': {P + '.v': P + '.w'}},
         ]
         x = r.random()
-        if x < 0.62:
+        if x < 0.7:
             self._note('update:single')
             return r.choice(singles)()
-        if x < 0.74:
+        if x < 0.8:
             self._note('update:two-positional-keys')
             op = r.choice(['$set', '$set', '$inc'])
             v1, v2 = (r.choice([7, 'y']), r.choice([8, 'z'])) if op == '$set' else (1, 10)
             second = r.choice([P + '.k', P + '.c.y', P + '.w', 'd.$', P])
             return {op: dict([(P + '.v', v1), (second, v2)])}
-        if x < 0.9:
+        if x < 0.93:
             self._note('update:with-other-operator')
             pos = r.choice(singles[:14])()
             other = r.choice([{'$set': {'c': 5}}, {'$inc': {'c': 1}}, {'$push': {'d': 4}},
